@@ -391,7 +391,12 @@ func (e *SpecEnv) call(n *ast.CallExpr) Value {
 	case "old":
 		ne := *e
 		ne.inOld = true
-		return ne.Eval(arg(0))
+		v := ne.Eval(arg(0))
+		if e.qprim == nil && ne.qprim != nil {
+			// the primary access of a quantifier may sit inside old(): keep the re-parametrisation
+			e.qprim, e.qheap, e.qpat = ne.qprim, ne.qheap, ne.qpat
+		}
+		return v
 	case "prev":
 		// prev(e), in the lemma hints of a loop: the value of e at the head of the iteration
 		if e.prevSt == nil {
